@@ -28,16 +28,23 @@ ASSUMPTIONS = [
 TRUSTED_EXTRA = ["cell contents are compared as Python values (str / int / float bit pattern / bool / list / nested tuple)"]
 MANIFEST = {
     "text": "Lean 4 theorems over a column-major table model (any cell type, any size): every operation and every finite program "
-            "preserves 'all columns equally long' (inv); indexing, boolean masking, concatenation, sort_by, replace and add_fields "
-            "act on whole rows (toRows (op t) = op_rows (toRows t)); sort_by yields a permutation of the rows with non-decreasing "
-            "key and never fails on a numeric field; rows->table->rows and table->rows->table are identities (zip(*.) twice), "
-            "including the empty table. Correspondence: the real classes of bionumpy.datatypes and dynamically made ones with "
-            "every column kind, 0..N rows, single operations exhaustively and random programs, against the Lean model, the Lean "
-            "row-level spec and a pure-Python list-of-tuples oracle; every final conversion (tolist, iteration, dict, pandas, "
-            "entry tuples) must reproduce the same rows and operands must be unchanged.",
+            "preserves 'all columns equally long' (inv); indexing, boolean masking, concatenation, sort_by (numeric fields by "
+            "value, text fields as byte strings), replace and add_fields act on whole rows (toRows (op t) = op_rows (toRows t)); "
+            "sort_by yields a permutation of the rows with non-decreasing key and never fails on an existing field; "
+            "rows->table->rows and table->rows->table are identities (zip(*.) twice), including the empty table; "
+            "from_dict(todict(t)) = t for arbitrarily nested table fields (dotted keys split at the first dot, level by level; "
+            "needs dot-free distinct field names, refuted otherwise). Typed construction: the dispatch of "
+            "_implicit_format_conversion is re-tabulated from the running code on every run (10 field kinds x 19 argument forms "
+            "-> class of the stored column or raise, Gen/C19.lean) and the kernel re-checks 'converts to the declared type or "
+            "raises' over the whole table, except the explicitly listed cells of the recorded findings. Correspondence: the real "
+            "classes of bionumpy.datatypes and dynamically made ones with every column kind, 0..N rows, single operations "
+            "exhaustively and random programs, nested classes up to depth 3, against the Lean model, the Lean row-level spec and a "
+            "pure-Python list-of-tuples oracle; every final conversion (tolist, iteration, dict, pandas, entry tuples) must "
+            "reproduce the same rows and operands must be unchanged.",
     "note": "Per-type indexing/concatenation lives in npstructures and the column classes (externals, exercised by the "
-            "correspondence); typed construction and the pandas round trip are Python dispatch covered by correspondence only.",
-    "technique": "Lean 4 proofs (transpose / gather algebra, induction over programs) + differential correspondence with the real table classes",
+            "correspondence); pandas DataFrame construction / to_dict('series') are assumed content-preserving. Sort ties between "
+            "different rows are not exercised (NumPy's default sort is not stable).",
+    "technique": "Lean 4 proofs (transpose / gather algebra, induction over programs, mutual recursion over nested tables) + kernel-checked obligation over a dispatch table regenerated from source + differential correspondence with the real table classes",
     "design": "§6 C19",
 }
 
